@@ -201,7 +201,7 @@ theorem reconnect_clears {s : Srv} {b : Bot} (hw : SrvWF s) (hc : Coupled s b)
 /-! ### the known finding: the full statement fails on this witness -/
 
 def cfg0 : Cfg :=
-  { server := "irc.srv".toList, multiPrefix := true, uhnames := false, extJoin := false, chghost := true, whox := true,
+  { server := "irc.srv".toList, multiPrefix := true, uhnames := false, extJoin := false, chghost := true, whox := true, batch := true,
     botNick := "test".toList, botIdent := "limnoria".toList, botHost := "bot.host".toList, namesPerLine := 3,
     chantypes := "#&".toList, channellen := "50".toList }
 
